@@ -14,11 +14,12 @@ import enum
 import itertools
 import keyword
 import random
+import re
 from dataclasses import dataclass, field, fields, make_dataclass
 from typing import Any, TypedDict
 
 import lib
-from lib import CoqEval, coq_list
+from lib import CoqEval, coq_list, coq_str
 
 PID = "C19"
 
@@ -208,6 +209,66 @@ def more_names_keys_constants(rep, stats):
             guarded(rep, f"field-name:typeddict:convert:{kw}", f"converting into a TypedDict with a key named {kw!r}",
                     lambda: get_converter(Dk, Dk2, recipe=[link_constant(P[Dk2][kw], value=7)])(Dk(2)),
                     lambda d: d == {kw: 7, "x": 2}, {"field": kw})
+
+
+def capture_correspondence(rep, r, tier):
+    """compile_closure_with_globals_capturing against Model/Capture.v: random namespaces over names that are prefixes of one
+    another ('f', 'g_f', 'g_g_f', ...), some values with a literal, some without; the (name, global) pairs of the emitted
+    assignments and the keys of the globals mapping must be what the model computes; and, directly: globals pairwise
+    different, none a namespace name or the closure name, every captured object reachable under its own name"""
+    from adaptix._internal.code_tools.compiler import BasicClosureCompiler
+    from adaptix._internal.morphing.model.basic_gen import compile_closure_with_globals_capturing
+    pool = ["f", "g_f", "g_g_f", "g_g_g_f", "data", "g_data", "x", "g_x", "g_g_x", "loader", "g_loader", "g_", "g_g_"]
+    cases = []
+    n = 0
+    for _ in range(150 if tier == "quick" else 1500):
+        ns_names = r.sample(pool, r.randint(1, 7))
+        closure = r.choice([p for p in pool if p not in ns_names])
+        values = {nm: (object() if r.random() < 0.7 else r.randint(0, 9)) for nm in ns_names}
+        captured = [nm for nm in ns_names if not isinstance(values[nm], int)]
+        seen = {}
+
+        def hook(data):
+            seen["ns"] = dict(data.namespace)
+            seen["src"] = data.source
+        n += 1
+        try:
+            fn = compile_closure_with_globals_capturing(
+                BasicClosureCompiler(), hook, values, closure_name=closure,
+                closure_code=f"def {closure}():\n    return ({', '.join(ns_names)},)", file_name="verif_capture")
+            got_values = fn()
+        except Exception as e:  # noqa: BLE001
+            rep.violation(f"capture:{type(e).__name__}", "property-violated",
+                          {"what": f"compile_closure_with_globals_capturing raises {type(e).__name__}: {str(e)[:120]}",
+                           "namespace": ns_names, "closure": closure, "captured": captured})
+            continue
+        pairs = []
+        for line in seen["src"].splitlines():
+            m = re.fullmatch(r"(\w+) = (g_\w*)", line.strip())
+            if m and m.group(1) in captured:
+                pairs.append((m.group(1), m.group(2)))
+        globals_ = [g for _, g in pairs]
+        direct_ok = (len(set(globals_)) == len(globals_) and not (set(globals_) & set(ns_names)) and closure not in globals_
+                     and all(a is values[nm] or a == values[nm] for a, nm in zip(got_values, ns_names))
+                     and set(seen["ns"]) == set(globals_))
+        if not direct_ok:
+            rep.violation("capture:collision", "property-violated",
+                          {"what": "captured objects do not all arrive under their own names (two globals coincide, or a global "
+                                   "shadows a namespace / closure name)", "namespace": ns_names, "closure": closure,
+                           "captured": captured, "assignments": pairs})
+        cases.append((f"({coq_list([coq_str(x) for x in ns_names])}, {coq_str(closure)}, {coq_list([coq_str(x) for x in captured])})",
+                      ";".join(f"{a}={b}" for a, b in pairs)))
+    header = ("From AV Require Import Model.Capture Model.Harness.\nFrom Coq Require Import List String.\nImport ListNotations.\n"
+              "Local Open Scope string_scope.\n"
+              "Definition run (c : list string * string * list string) : string :=\n"
+              "  match c with (ns, cl, cap) => join \";\" (map (fun p => fst p ++ \"=\" ++ snd p) (capture true ns cl cap)) end.\n")
+    ce = CoqEval(PID + "cap", header, "run", shard=300)
+    bad = ce.compare(cases)
+    for k, err in ce.errors:
+        rep.violation("coq-eval-failed:capture", "correspondence-diff", {"shard": k, "coq_error": err}, no_input=True)
+    for idx, got in bad[:3]:
+        rep.violation(f"capture-diff:{idx % 3}", "correspondence-diff", {"case": cases[idx][0], "library": cases[idx][1], "model": got})
+    return n
 
 
 def run(rep, tier, seed):
@@ -446,6 +507,7 @@ def run(rep, tier, seed):
                             link_function(anon, _P[DstN].g), link_constant(_P[DstN].h, value=decimal.Decimal(2))])(SrcN(1, 2)),
                         lambda o: (o.f, o.c, o.g, o.h) == (101, decimal.Decimal(1), 9, decimal.Decimal(2)), {"name": nm, "field_order": order})
     more_names_keys_constants(rep, stats)
+    stats["capture_cases"] = capture_correspondence(rep, random.Random(seed + 3), tier)
     # ---------------------------------------------------------------- stub defaults and parameter names
     defaults = [Color.RED, object(), Evil("CANARY(2)"), Evil("1)): pass\nCANARY(10)\nif ((1"), "x'\"\n", b"\x00'", 1.5, float("inf"), None, (1,),
                 [1], {"a": 1}, Evil(""), Evil("lambda: 0"), 10 ** 30, -1, Ellipsis, int, len]
